@@ -4,6 +4,7 @@
   contract (orthonormal eigenvectors with `A = V diag(s) Vᵀ`; `QᵀQ = 1`).
 -/
 import MellonProofs.ConditionalLemmas
+import MellonProofs.SchurLemmas
 import MellonModel.Decomp
 import Mathlib.LinearAlgebra.Matrix.PosDef
 import Mathlib.Algebra.Order.Star.Real
@@ -108,6 +109,30 @@ theorem inducing_LLt {cov : Cov ℝ} {x : Mat ℝ n d} {xu : Mat ℝ m d} {sigma
   rw [Matrix.transpose_mul, Matrix.transpose_nonsing_inv, Matrix.transpose_transpose,
     gram_transpose]
   simp only [Matrix.mul_assoc]
+
+/-- **never above K (inducing points).** If the joint Gram matrix of landmarks and cells,
+    `[[K_uu + s·I, K_ux], [K_xu, K_xx + jitter·I]]`, is positive semi-definite — which is what a valid
+    (PSD) kernel provides; for the five stationary kernels this is the named hypothesis of DESIGN.md §3 —
+    then `(K + jitter·I) − L Lᵀ` is positive semi-definite. -/
+theorem inducing_loewner {cov : Cov ℝ} {x : Mat ℝ n d} {xu : Mat ℝ m d} {sigma jitter : ℝ} {L : Mat ℝ n m}
+    (h : standardLowRank cov x xu Option.none sigma jitter = some L)
+    (hjoint : (Matrix.fromBlocks
+        (toM (gram cov xu xu) + (max (sigma * sigma) jitter) • (1 : Matrix (Fin m) (Fin m) ℝ))
+        (toM (gram cov xu x)) (toM (gram cov xu x))ᵀ
+        (toM (gram cov x x) + jitter • (1 : Matrix (Fin n) (Fin n) ℝ))).PosSemidef) :
+    (toM (gram cov x x) + jitter • (1 : Matrix (Fin n) (Fin n) ℝ) - toM L * (toM L)ᵀ).PosSemidef := by
+  unfold standardLowRank at h
+  simp only at h
+  split at h
+  · cases h
+  · rename_i Lp hLp
+    have hL : L = Mat.transpose (solveLowerM Lp (gram cov xu x)) := (Option.some.inj h).symm
+    obtain ⟨hLLt, hLN, _⟩ := full_LLt hLp
+    have h1 : toM Lp * toM (solveLowerM Lp (gram cov xu x)) = toM (gram cov xu x) := solveLowerM_mul hLN _
+    rw [← hLLt] at hjoint
+    have := schur_psd hLN (toM (solveLowerM Lp (gram cov xu x))) (toM (gram cov xu x)) _ h1 hjoint
+    rw [hL, toM_transpose, Matrix.transpose_transpose]
+    exact this
 
 /-! ### Nyström assembly -/
 
